@@ -91,6 +91,11 @@ Catalogue ==
      [t |-> 0, m |-> BoxMesh3("h111", "hypercube", 0, <<0, 1>>, <<0, 1>>, <<0, 1>>)],
      [t |-> 0, m |-> BoxMesh3("h211a", "hypercube", 2, <<0, 1, 4>>, <<0, 4>>, <<0, 4>>)],
      [t |-> 1, m |-> BoxMesh3("h222a", "hypercube", 1, <<0, 1, 2>>, <<0, 1, 2>>, <<0, 1, 2>>)],
+     \* a frustum: non-affine hexahedron whose faces x = 0 and y = 0 are planar TRAPEZOIDS (the Jacobian of the facet varies, so the
+     \* orientation of the cubature points on the facet matters), z = 0 and z = 1 are squares, the other two faces are slanted
+     [t |-> 0, m |-> MeshRec("hfrust", "hypercube", 3, "general", 1,
+                             << <<0, 0, 0>>, <<2, 0, 0>>, <<0, 2, 0>>, <<2, 2, 0>>, <<0, 0, 2>>, <<1, 0, 2>>, <<0, 1, 2>>, <<1, 1, 2>> >>,
+                             << <<0, 1, 2, 3, 4, 5, 6, 7>> >>)],
      [t |-> 0, m |-> BoxMesh3("s111", "simplex", 0, <<0, 1>>, <<0, 1>>, <<0, 1>>)],
      [t |-> 1, m |-> BoxMesh3("s211a", "simplex", 1, <<0, 1, 2>>, <<0, 2>>, <<0, 2>>)] >>
 
@@ -159,7 +164,8 @@ Cross(a, b) == <<a[2] * b[3] - a[3] * b[2], a[3] * b[1] - a[1] * b[3], a[1] * b[
 AxisOf(v) == IF Cardinality({a \in 1..Len(v) : v[a] # 0}) = 1 THEN CHOOSE a \in 1..Len(v) : v[a] # 0 ELSE 0
 
 \* kind of the facet: "seg" (2D, any direction), "rect" (3D hypercube, axis-parallel parallelogram spanned by the edges leaving
-\* its first vertex), "rtri" (3D simplex: two edges leaving one of its vertices are parallel to two different axes), "other"
+\* its first vertex), "rtri" (3D simplex: two edges leaving one of its vertices are parallel to two different axes), "aquad"
+\* (3D hypercube meshes of class "general": any quadrilateral lying in a plane x_g = const, split into two triangles), "other"
 \* FBase = [o |-> origin, a |-> first edge vector, b |-> second edge vector (3D)]
 RtriApex(P) == {r \in 1..3 : LET o == {1, 2, 3} \ {r}
                                  q1 == CHOOSE x \in o : TRUE   q2 == CHOOSE x \in o : x # q1
@@ -168,6 +174,8 @@ RtriApex(P) == {r \in 1..3 : LET o == {1, 2, 3} \ {r}
 FKind(M, cl) ==
   LET P == FPts(M, cl) IN
   IF M.dim = 2 THEN "seg"
+  ELSE IF M.shape = "hypercube" /\ M.class = "general" THEN
+    (IF \E g \in 1..3 : \A i \in 1..4 : P[i][g] = P[1][g] THEN "aquad" ELSE "other")
   ELSE IF M.shape = "hypercube" THEN
     (IF AxisOf(Sub(P[2], P[1])) # 0 /\ AxisOf(Sub(P[3], P[1])) # 0 /\ AxisOf(Sub(P[2], P[1])) # AxisOf(Sub(P[3], P[1]))
         /\ Sub(P[4], P[3]) = Sub(P[2], P[1]) THEN "rect" ELSE "other")
@@ -223,18 +231,37 @@ ITri(o, a, b, e) ==
 FInfo(M, cl) ==
   LET kd == FKind(M, cl) IN
   IF kd = "other" THEN [k |-> kd, o |-> << >>, a |-> << >>, b |-> << >>, j2 |-> 0, j3 |-> 0, n |-> << >>]
+  ELSE IF kd = "aquad" THEN
+       \* the integral IRef of this kind carries the measure: j3 = 1, n = the outer UNIT normal (+- a unit vector)
+       [k |-> kd, o |-> FPts(M, cl), a |-> << >>, b |-> << >>, j2 |-> 0, j3 |-> 1, n |-> [x \in 1..3 |-> Sgn(OutNormal(M, cl)[x])]]
   ELSE LET B == FBase(M, cl) IN
        [k |-> kd, o |-> B.o, a |-> B.a, b |-> B.b, j2 |-> FJac2(M, cl), j3 |-> (IF M.dim = 3 THEN FJac3(M, cl) ELSE 0), n |-> OutNormal(M, cl)]
 FInfoTable(M) == TLCEval([cl \in CellFacets(M) |-> FInfo(M, cl)])
 \* reference integral of x^e over the facet of the pair, times IRefDen(kind); coordinates in integer units (x = X/G)
+\* any triangle o, o+a, o+b in the plane x_g = const:  LTri * |a x b| * int_{ref triangle} (o + s a + t b)^e ds dt
+\* ((o + s a + t b)_k)^n = sum_{i+j<=n} n!/(i! j! (n-i-j)!) o^(n-i-j) a^i b^j s^i t^j)
+Multi(n, i, j) == Fact(n) \div (Fact(i) * Fact(j) * Fact(n - i - j))
+ITriG(o, a, b, e) ==
+  LET ga == CHOOSE g \in 1..3 : a[g] = 0 /\ b[g] = 0
+      al == CHOOSE x \in 1..3 : x # ga   be == CHOOSE x \in 1..3 : x # ga /\ x # al
+      IJ(n) == SetSeq({p \in (0..n) \X (0..n) : p[1] + p[2] <= n})
+      A1 == IJ(e[al])   B1 == IJ(e[be])
+      c(k, n, p) == Multi(n, p[1], p[2]) * PowA(o[k], n - p[1] - p[2]) * PowA(a[k], p[1]) * PowA(b[k], p[2])
+  IN PowA(o[ga], e[ga]) * Abs(Cross(a, b)[ga]) *
+     SumA([q \in 1..Len(A1) |-> SumA([r \in 1..Len(B1) |->
+        c(al, e[al], A1[q]) * c(be, e[be], B1[r])
+        * ((LTri * Fact(A1[q][1] + B1[r][1]) * Fact(A1[q][2] + B1[r][2])) \div Fact(A1[q][1] + B1[r][1] + A1[q][2] + B1[r][2] + 2))])])
+\* quadrilateral P (hypercube numbering 00, 10, 01, 11) in an axis plane = triangles (P1, P2, P4) and (P1, P4, P3)
+IQuadA(P, e) == ITriG(P[1], Sub(P[2], P[1]), Sub(P[4], P[1]), e) + ITriG(P[1], Sub(P[4], P[1]), Sub(P[3], P[1]), e)
 IRef(fi, e) ==
   CASE fi.k = "seg" -> ISeg(fi.o, fi.a, e) [] fi.k = "rect" -> IRect(fi.o, fi.a, fi.b, e) [] fi.k = "rtri" -> ITri(fi.o, fi.a, fi.b, e)
-IRefDen(kind) == CASE kind = "seg" -> LSeg [] kind = "rect" -> LSeg3 * LSeg3 [] kind = "rtri" -> LTri
+    [] fi.k = "aquad" -> IQuadA(fi.o, e)
+IRefDen(kind) == CASE kind = "seg" -> LSeg [] kind = "rect" -> LSeg3 * LSeg3 [] kind = "rtri" -> LTri [] kind = "aquad" -> LTri
 TotDeg(e) == SumA(e)
 
 \* ---- values:  [d |-> den, t |-> << <<num, r>> ... >>]  =  sum num * sqrt(r) / den ---------------------------------------
 \* Sel = a set of (cell, local facet) pairs; FI = FInfoTable of the mesh; a mesh has facets of one supported kind (or "other")
-DefKind(M) == IF M.dim = 2 THEN "seg" ELSE IF M.shape = "hypercube" THEN "rect" ELSE "rtri"
+DefKind(M) == IF M.dim = 2 THEN "seg" ELSE IF M.shape = "hypercube" THEN (IF M.class = "general" THEN "aquad" ELSE "rect") ELSE "rtri"
 SelSupported(FI, Sel) == \A cl \in Sel : FI[cl].k # "other"
 \* int over Sel of x^e dS  (every pair counts: an inner facet selected with both adjacent cells counts twice)
 \* (IR = table of the reference integrals  IR[cl][e] = IRef(FI[cl], e), computed once per mesh)
@@ -269,6 +296,12 @@ PolyMom(M, e) ==
 DomMomOK(M, e) == IF M.class = "box" THEN A!BoxOK(e) ELSE M.dim = 2 /\ TotDeg(e) <= 2
 DomMom(M, e) == IF M.class = "box" THEN [n |-> A!MomBox(e), d |-> BoxDen(M.dim)]
                 ELSE [n |-> PolyMom(M, e), d |-> A!PolyScale(MeshG(M), TotDeg(e))]
+\* barycentre value of the monomial x^e at the entity with vertex set E:  prod_k (sum_v X_v[k])^e_k / (|E| G)^|e|
+BaryVal(M, E, e) ==
+  LET S == SetSeq(E)
+      sumc(a) == SumA([q \in 1..Len(S) |-> Pt(M, S[q])[a]])
+  IN [n |-> A!ProdA([a \in 1..M.dim |-> PowA(sumc(a), e[a])]), d |-> PowA(Cardinality(E) * MeshG(M), TotDeg(e))]
+
 \* the class claimed by the catalogue is what the coordinates say: box = axis-parallel cells tiling [0,1]^dim
 ClassOK(M) ==
   /\ M.class = "box" =>
